@@ -69,6 +69,8 @@ func symBytes(sym, mime string) string {
 		return "\n"
 	case "j":
 		return "q"
+	case "LONG":
+		return strings.Repeat("q", 5000)
 	}
 	return sym
 }
